@@ -130,9 +130,22 @@ structure ExpertRec where
   /-- driver scripts: dependencies added by `xadd` (in order) and the one held by `xsel` -/
   script : List Nat := []
   sel : Option (Nat × Nat) := none       -- (dependency, child it points to)
+  /-- per-key operator nodes: (operator instance, key) for a per-key input node, (instance, none) for the result -/
+  pk : Option (Nat × Option Int) := none
   forceStale : Bool := false
   numInvalidChildren : Int := 0
   willFireAllCallbacks : Bool := true
+deriving Repr, Inhabited
+
+/-- one `incr_mapi_` operator instance: the state captured by its `lhs_change` closure -/
+structure PerKeyRec where
+  fam : Nat
+  cut : Option CutoffK := none
+  result : Nat := 0
+  lhsChange : Nat := 0
+  prevMap : List (Int × Int) := []
+  /-- key ↦ (per-key node, dependency of `result` on the mapped node) -/
+  prevNodes : List (Int × (Nat × Nat)) := []
 deriving Repr, Inhabited
 
 structure Node where
@@ -218,6 +231,10 @@ structure State where
   currentlyRunning : Option Nat := none      -- `only_in_debug.currently_running_node`
   alive : Bool := true                      -- false once the `IncrState` is dropped
   top : Array Nat := #[]                    -- naming table: k-th node created by a top-level action
+  handles : List Nat := []                  -- nodes the program holds a handle on (top-level results not yet dropped)
+  slots : List (Nat × Nat) := []            -- shared cells: slot ↦ node
+  memos : List (Nat × List (Int × Nat)) := []   -- weak_memoize_fn storage: memo ↦ key ↦ node
+  perkeys : Array PerKeyRec := #[]
   log : List Event := []                    -- reversed
 deriving Repr, Inhabited
 
@@ -238,6 +255,7 @@ inductive Opnd where
   | outer (n : Nat)      -- `n<k>`: the k-th node created by a top-level action (captured handle)
   | abs (n : Nat)        -- `#<i>`: a node by creation index (directed tests: nodes leaked from closures)
   | loc (j : Nat)        -- `%j`: the j-th node created by this run of the closure
+  | slot (k : Nat)       -- `@s<k>`: the node last published in slot k (a shared cell)
 deriving Repr, Inhabited, DecidableEq
 
 /-- user code, the quantifier "for all programs" -/
@@ -261,6 +279,14 @@ inductive Effect where
   | xInval (e : Opnd)
 deriving Repr, Inhabited
 
+/-- which incremental-map operator, with the id `m` of its user-function parameters -/
+inductive MapOpK where
+  | fm (m : Nat) (x : Opnd)
+  | fold (m : Nat) (revert update : Bool) (x : Opnd)
+  | merge (m : Nat) (x y : Opnd)
+  | part (m : Nat) (x : Opnd)
+deriving Repr, Inhabited
+
 /-- node-creating instruction, usable at top level (operands `outer`) and inside bind bodies -/
 inductive Instr where
   | const (v : Val)
@@ -275,6 +301,11 @@ inductive Instr where
   | dependOn (a b : Opnd)
   | cutoff (n : Opnd) (c : CutoffK)
   | expert (f : Nat)
+  | publish (slot : Nat) (o : Opnd)            -- store a handle in a shared cell (no node created)
+  | scopedVar (v : Val)                        -- `var_current_scope`
+  | memoCall (m : Nat) (key : Int)             -- call a `weak_memoize_fn` function
+  | mapOp (op : MapOpK)                        -- an incremental-map diff-based operator
+  | perKey (cut : Option CutoffK) (fam : Nat) (x : Opnd)   -- `incr_mapi_` / `incr_mapi_cutoff`
 deriving Repr, Inhabited
 
 structure Template where
@@ -294,5 +325,9 @@ structure Env where
   /-- expert recompute closure: values of the current dependencies (in edge order) and, for those with a
   callback, what the callback last stored -/
   expertFn : Nat → List (Option Val) → List (Option Val) → Val
+  /-- user-function calls an operator closure makes in one step: (what, arguments, rendered result) -/
+  withOldCalls : Nat → Val → Option Val → Val → List (String × List Val × String)
+  memo : Nat → Template
+  perKey : Nat → Template
 
 end IncrVerif.Engine
